@@ -15,7 +15,7 @@ CHECKS = {
  "C03": dict(technique="runtime monitoring: mutation monitor over authentic tokens (operator/region oracle by construction, tolerated classes) plus a trace rule on the keystream hook (no decryption event during a rejected call) and a validator call log",
    text="Authentic base tokens of all 8 protocols are altered by exhaustive operators (all single-bit flips, all single-character substitutions, all prefixes, boundary shifts, splices, footer swaps, non-canonical base64, signature re-encodings) and seeded random edits; every mutant is presented to the real entry points at all three layers. A mutant must be rejected with a non-plaintext error, without a keystream event and without any validator call; only the two tolerated classes may be accepted, and only with the original content. quick ~7.5e5 evaluations.",
    note="authenticity of base tokens comes from the library itself; unforgeability of the primitives is assumed; hook placement inside CipherText::from", ref="DESIGN.md section 4 C03"),
- "C04": dict(technique="runtime monitoring: wrong-key monitor (oracle by construction: any acceptance under a different key is a violation) over all single-bit key neighbours, key pools, ECDSA keys recovered from the token's own signature and short-plaintext sweeps at all three layers, plus parser sessions (one parser object, the same token under the right key, another key, the right key again; long sessions; two parser objects alive at once)",
+ "C04": dict(technique="runtime monitoring: wrong-key monitor (oracle by construction: any acceptance under a different key is a violation) over all single-bit key neighbours, key pools, ECDSA keys recovered from the token's own signature and short-plaintext sweeps at all three layers, plus parser sessions (one parser object, the same token under the right key, another key, the right key again; right-wrong-wrong presentations of every refused key; long sessions; two parser objects alive at once)",
    text="Authentic tokens are presented under every single-bit neighbour of their key (symmetric, Ed25519, P-384 point, RSA DER), all-zero/all-one/random/rotated/half-zeroed keys and every other pool key; one parser object is handed the same token under changing keys and must answer like a fresh parser each time. quick ~1e5 evaluations.",
    note="forgery resistance of the primitives assumed; different encodings of the same key are out of scope", ref="DESIGN.md section 4 C04"),
  "C05": dict(technique="runtime monitoring: footer monitor (string-equality oracle in the harness, own base64url encoder) over the footer catalogue squared at all three layers, footer-segment edits (incl. non-canonical encodings and long extensions), a footer length sweep, parser sessions with a changing expected footer (also two parser objects alive at once) and builders used three times",
@@ -27,7 +27,7 @@ CHECKS = {
  "C07": dict(technique="runtime monitoring: cross-protocol monitor over all 56 ordered protocol pairs (exhaustive), verbatim and relabelled tokens (each first accepted by its own protocol), shared key material, layout-aligned message lengths, three layers",
    text="Tokens of protocol X are presented verbatim and with Y's header to Y's core/generic/batteries entry points using the same key bytes wherever types allow; any acceptance is a violation; message lengths 0..96 chosen so that foreign bodies line up with the target nonce/tag layout. quick ~4.5e4 evaluations over all 56 pairs.",
    note="forgery resistance of the primitives assumed", ref="DESIGN.md section 4 C07"),
- "C08": dict(technique="runtime monitoring: offline differential checker over recorded event logs in both directions against an independent executable reference (pure-Python refpaseto pinned to all 48 official vectors)",
+ "C08": dict(technique="runtime monitoring: offline differential checker over recorded event logs in both directions against an independent executable reference (pure-Python refpaseto pinned to all 48 official vectors), incl. series sealed and opened through ONE key object and series sealed from ONE core builder",
    text="The library's tokens for explicit (key, nonce, message, footer, assertion) are recomputed by the reference and must be byte-identical (local) / verify (public); builder-produced tokens must open under the reference; the footer segment must be present iff the footer is non-empty; reference-built tokens (fresh nonces, and v1 wire nonces at AES-CTR carry boundaries) must be opened by the library to exactly the message. quick ~3.8e3 tokens each way, thorough ~6e4 with messages to 256 KiB.",
    note="the reference could share a misreading of the specification with the implementation: it is pinned to every official vector and each primitive to its RFC/FIPS known-answer test; no shared code, language or crypto library", ref="DESIGN.md section 4 C08", engine="c08-differential"),
  "C09": dict(technique="runtime monitoring: panic/crash monitor (catch_unwind + panic-location hook + parent-side death detection; thorough adds a plain-release pass, valgrind memcheck and a Miri pass over the ring-free paths) over hostile token strings at all 24 entry points and Key::<N>::try_from",
@@ -42,7 +42,7 @@ CHECKS = {
  "C12": dict(technique="runtime monitoring: time-claim monitor mirrored for nbf plus the 3x3 (exp, nbf) grid, against PasetoParser::default(), plus clock-progress histories",
    text="As C11 with the direction reversed (reject nbf >= now+60 s, accept <= now-2 s), non-timestamps rejected, and the independent combinations of (exp, nbf) in {past, future, absent} x 3 offsets on all 8 protocols. quick ~3.8e5 evaluations.",
    note="clock margins 2 s / 60 s, stalled cases discarded not failed", ref="DESIGN.md section 4 C11/C12"),
- "C13": dict(technique="runtime monitoring: reference-model monitor (property-level state machine of the batteries-included builder + clock bracket) over exhaustive call words and seeded random histories, including repeated builds, pairs of builders with interleaved operations and builders created on a virtual clock (guarded hook)",
+ "C13": dict(technique="runtime monitoring: reference-model monitor (property-level state machine of the batteries-included builder + clock bracket) over exhaustive call words and seeded random histories, including repeated builds, pairs of builders with interleaved operations, barrier-released rounds of builders on different threads, histories with a build that fails in the sealing step (unusable key material / injected RNG failure through a guarded hook) and builders created on a virtual clock (guarded hook)",
    text="All call words up to length 4 (thorough 6) over {set exp/nbf/iat/iss/custom, acknowledge, footer, assertion, build} on v4.local and random words to length 12 on all 8 protocols; every built token is read back and compared with the model: exp present iff not acknowledged, default exp = creation + 1 h exactly, default iat = nbf within the clock bracket, caller values present, nothing else.",
    note="local payloads are read back with the library's decrypt (C01 covers that); 5 ms clock slack", ref="DESIGN.md section 4 C13"),
  "C14": dict(technique="runtime monitoring: claim-map reference-model monitor (last write wins, remove deletes; serde_json equality) over seeded random set/remove histories with JSON trees, native Rust values and typed registered claims, incl. multi-build histories of one builder",
@@ -54,7 +54,7 @@ CHECKS = {
  "C16": dict(technique="runtime monitoring: validator call-log monitor (thread-local log written by harness validators, behaviour table) over authentic and forged tokens, registration routes, parser-reuse sequences, validators added to a live parser between parses, and authentic non-object payloads",
    text="Validators registered through validate_claim / extend_validation_claims on all parser kinds: no call for any forged token; for authentic tokens each validator sees the real value exactly once, Ok only if all ran and accept, Err only from a rejecting validator/expectation; sequences of mixed tokens through one parser. quick ~1e4 parses.",
    note="validators are harness functions; forgeries are built by construction (wrong key/footer/assertion/header, bit flip, truncation)", ref="DESIGN.md section 4 C16"),
- "C17": dict(technique="runtime monitoring: reference-model monitor (duplicate-key state machine) over exhaustive call words, seeded random histories up to length 40, pairs of builders with interleaved operations and a dictionary of colliding key pairs",
+ "C17": dict(technique="runtime monitoring: reference-model monitor (duplicate-key state machine) over exhaustive call words, seeded random histories up to length 40, pairs of builders with interleaved operations, barrier-released rounds of builders on different threads (claim names new to the process in every round), histories with a build that fails in the sealing step and a dictionary of colliding key pairs",
    text="All words up to length 4 (thorough 5) over 9 claim keys + acknowledge + footer + build on v4.local, random words on all 8 protocols: after the first repeated key every build fails with the duplicate error naming a duplicated key; otherwise every build succeeds with the caller's values; exp-after-acknowledgement latitude encoded as two admissible outcomes.",
    note="local payloads are read back with the library's decrypt (C01 covers that)", ref="DESIGN.md section 4 C17"),
  "C18": dict(technique="runtime monitoring: constructor monitor (set-membership oracle; rendering generator; broad ISO 8601 date-prefix recogniser) over an exhaustive small key space, decorated reserved keys, random keys and the RFC 3339 rendering space",
